@@ -184,7 +184,11 @@ impl Store for Database {
         for row in stmt.into_iter() {
             let row = row?;
             let _typ = row.read::<AddressType, _>("type");
-            let addr = row.read::<Address, _>("value");
+            // Nb. Addresses come from peers. One that was stored but doesn't parse back
+            // is skipped: it can't be connected to, and must not bring the node down.
+            let Ok(addr) = row.try_read::<Address, _>("value") else {
+                continue;
+            };
             let source = row.read::<Source, _>("source");
             let last_attempt = row
                 .read::<Option<i64>, _>("last_attempt")
@@ -301,7 +305,10 @@ impl Store for Database {
         while let Some(Ok(row)) = stmt.next() {
             let node = row.read::<NodeId, _>("node");
             let _typ = row.read::<AddressType, _>("type");
-            let addr = row.read::<Address, _>("value");
+            // Nb. See `addresses_of`: skip stored addresses that don't parse back.
+            let Ok(addr) = row.try_read::<Address, _>("value") else {
+                continue;
+            };
             let source = row.read::<Source, _>("source");
             let last_success = row.read::<Option<i64>, _>("last_success");
             let last_attempt = row.read::<Option<i64>, _>("last_attempt");
